@@ -1,12 +1,19 @@
 import GrinVerif.Drv.Common
 import GrinVerif.Model.Codec
 import GrinVerif.Model.SerBlock
+import GrinVerif.Model.DecSer
 /-! Driver glue for the `codec` domain (line protocol handler): C11 decoder lines and C19 framing lines.
 
     codec dec <D> <bin|buf> <ver> <hex>  => ok <consumed> <canon> <maxreq> | err <E> <maxreq> | panic <maxreq>
     codec hex <utf8-hex>                 => ok <bytes> <maxreq> | err <maxreq> | panic <maxreq>
-    codec bound <D> <k> <len>            => <ok|err> <maxreq>        (decoders modelled by other domains:
-                                                                   only the allocation bound 16·len + k is checked)
+    codec bound <D> <k> <len>            => <ok|err> <maxreq>        (random / count-mutated inputs of the payload
+                                                                   types: only the allocation bound 16·len + k)
+    codec decs <D> <bin|buf> <ver> <extra> <hex> => ok <consumed> <canon> <maxreq> <peak> | err <E> <maxreq> <peak>
+                                                    | panic <maxreq> <peak>
+                                          (the decoders of the consensus objects, `Model/DecSer.lean`; `extra` = `-` or
+                                           `<now>:<ftl>:<pow>` = clock, future time limit, verdict of `verify_size`;
+                                           `max maxreq peak ≤ alloc + 1024`, no slack proportional to the input)
+    codec memsize <T>                    => <size_of::<T>()>
 
     codec run <ver> <[frag,frag,…]>      => [ev;ev;…;end:<E>:<bytes_read>[:<maxreq>]]   (C19, real `Codec`)
     codec hs accept|initiate <genesis> <stream> => ok <version> | err <E>              (C19, real `Handshake`)
@@ -16,7 +23,7 @@ import GrinVerif.Model.SerBlock
 allocation request the real decoder made, checked against the model's requested allocation
 (`maxreq ≤ alloc + 16·len + 1024`). -/
 namespace GV.Drv.CodecD
-open GV GV.Drv GV.Ser GV.Dec GV.Msg GV.Codec
+open GV GV.Drv GV.Ser GV.Dec GV.Msg GV.Codec GV.DecSer
 
 structure St where
   dummy : Unit := ()
@@ -110,6 +117,106 @@ def judge (cls : String) (alloc len : Nat) (impl : String) (refusalIsSpec : Bool
       else .diff s!"{cls} alloc={alloc}"
     else if maxreq > alloc + 16 * len + 1024 then .fail s!"{cls} alloc={alloc} (real request {maxreq} exceeds alloc+16*len+1024)"
     else .ok
+
+/-! ### the decoders of the consensus objects (`Model/DecSer.lean`) -/
+
+/-- the `BitVec` of a decoded block -/
+def blockBitsArray (b : GV.DecSer.BitmapBlock) : Array Bool :=
+  match b.bits with
+  | .raw bytes =>
+    bytes.foldl (fun acc byte => (List.range 8).foldl (fun a i => a.push (byte / 2^(7 - i) % 2 == 1)) acc) #[]
+  | .flips fill ps => ps.foldl (fun a p => a.setIfInBounds p (!fill)) (Array.replicate b.nBits fill)
+
+def packBitsMsb : List Bool → Bytes
+  | b0 :: b1 :: b2 :: b3 :: b4 :: b5 :: b6 :: b7 :: r =>
+    let v (b : Bool) (w : Nat) : Nat := if b then w else 0
+    (v b0 128 + v b1 64 + v b2 32 + v b3 16 + v b4 8 + v b5 4 + v b6 2 + v b7 1) :: packBitsMsb r
+  | _ => []
+
+/-- `Writeable for BitmapBlock`: positive / negative index list below 4096 entries, raw bytes otherwise -/
+def encBitmapBlock (b : GV.DecSer.BitmapBlock) : Bytes :=
+  let bits := blockBitsArray b
+  let len := bits.size
+  let idx := List.range len
+  let pos := idx.filter fun i => bits[i]!
+  let neg := idx.filter fun i => !bits[i]!
+  writeU8 (len / 1024 % 256) ++
+    (if pos.length < 4096 then writeU8 1 ++ writeU16 pos.length ++ (pos.map writeU16).flatten
+     else if neg.length < 4096 then writeU8 2 ++ writeU16 neg.length ++ (neg.map writeU16).flatten
+     else writeU8 0 ++ packBitsMsb bits.toList)
+
+def encBitmapSegment (s : GV.DecSer.BitmapSegment) : Bytes :=
+  encSegmentId s.id ++ writeU16 s.blocks.length ++ (s.blocks.map encBitmapBlock).flatten ++
+  writeU64 s.proof.length ++ s.proof.flatten
+
+def showE : Except SerErr Bytes → String
+  | .ok b => toHex b
+  | .error _ => "E"
+
+/-- `-` or `<now>:<ftl>:<pow>` -/
+def parseExtra (s : String) : Option (Int × Nat × Bool) :=
+  if s = "-" then some (0, 0, false) else
+  match s.splitOn ":" with
+  | [a, b, c] => match a.toInt?, b.toNat? with
+    | some now, some ftl => some (now, ftl, c == "1")
+    | _, _ => none
+  | _ => none
+
+def runDecS (d : String) (rd : Rdr) (ver : Nat) (ex : Int × Nat × Bool) (bs : Bytes) : Option (String × Nat) :=
+  let len := bs.length
+  let c := mkCfg ver
+  let ps := c.proofSize
+  let e : Env := { cfg := c, ct := .automatedTesting, now := ex.1, ftl := ex.2.1, powOk := fun _ => ex.2.2 }
+  match d with
+  | "output" => some (render (fun o => toHex (encOutput o)) len (rOutput rd bs))
+  | "rproof" => some (render (fun o => toHex (encRangeProof o)) len (rRangeProof rd bs))
+  | "kernel" => some (render (fun k => toHex (encTxKernel ver .full k)) len (rTxKernel rd c bs))
+  | "input" => some (render (fun i => toHex (encInput i)) len (rInput rd bs))
+  | "outid" => some (render (fun i => toHex (encOutputId i)) len (rOutputId rd bs))
+  | "tx" => some (render (fun t => showE (encTransaction c.key ver .full t)) len (rTransaction rd c bs))
+  | "proof42" => some (render (fun p => toHex (encProof 42 .full p)) len (rProof rd { c with proofSize := 42 } bs))
+  | "header" => some (render (fun h => toHex (encBlockHeader ps .full h)) len (rBlockHeader rd c bs))
+  | "uheader" => some (render (fun h => toHex (encBlockHeader ps .full h)) len (rUntrustedHeader rd e bs))
+  | "ublock" => some (render (fun b => showE (encBlock c.key ps ver .full b)) len (rUntrustedBlock rd e bs))
+  | "ucblock" => some (render (fun b => toHex (encCompactBlock ps ver .full b)) len (rUntrustedCompactBlock rd e bs))
+  | "bitmapseg" => some (render (fun s => toHex (encBitmapSegment s)) len (rBitmapSegment rd bs))
+  | "resp:22" =>
+    some (render (fun (p : Bytes × GV.DecSer.BitmapSegment × Bytes) => toHex (p.1 ++ encBitmapSegment p.2.1 ++ p.2.2)) len
+      (rBitmapSegmentResponse rd bs))
+  | "resp:24" =>
+    some (render (fun (p : Bytes × Segment OutputId × Bytes) => toHex (p.1 ++ encSegCommon encOutputId p.2.1 ++ p.2.2)) len
+      (rOutputSegmentResponse rd bs))
+  | "resp:26" =>
+    some (render (fun (p : Bytes × Segment RangeProof) => toHex (p.1 ++ encSegCommon encRangeProof p.2)) len
+      (rSegmentResponse rd (rRangeProof rd) RANGE_PROOF_MEM bs))
+  | "resp:28" =>
+    some (render (fun (p : Bytes × Segment TxKernel) => toHex (p.1 ++ encSegCommon (encTxKernel ver .full) p.2)) len
+      (rSegmentResponse rd (rTxKernel rd c) KERNEL_MEM bs))
+  | _ => none
+
+/-- `"<class…> <maxreq> <peak>"` -/
+def judgeS (cls : String) (alloc : Nat) (impl : String) : Verdict :=
+  match (impl.splitOn " ").reverse with
+  | pk :: mr :: rest =>
+    match nat? pk, nat? mr with
+    | some peak, some maxreq =>
+      let icls := " ".intercalate rest.reverse
+      if icls ≠ cls then .diff s!"{cls} alloc={alloc}"
+      else if max maxreq peak > alloc + 1024 then
+        .fail s!"{cls} alloc={alloc} (real request {maxreq} / live peak {peak} exceeds the model's requested allocation + 1024)"
+      else .ok
+    | _, _ => .unknown
+  | _ => .unknown
+
+def memSize : String → Option Nat
+  | "commitment" => some COMMIT_MEM
+  | "input" => some INPUT_MEM
+  | "outputid" => some OUTPUT_ID_MEM
+  | "rangeproof" => some RANGE_PROOF_MEM
+  | "output" => some OUTPUT_MEM
+  | "kernel" => some KERNEL_MEM
+  | "shortid" => some SHORT_ID_MEM
+  | _ => none
 
 /-! ### C19: the codec over fragments -/
 
@@ -228,6 +335,17 @@ def handle (st : St) (args : List String) (impl : String) : St × Verdict :=
       | some (cls, alloc) => (st, judge cls alloc bs.length impl (d.startsWith "hdr"))
       | none => (st, .unknown)
     | _, _, _ => (st, .unknown)
+  | ["decs", d, rd, ver, extra, hex] =>
+    match parseRdr rd, nat? ver, parseExtra extra, parseHex hex with
+    | some rd, some ver, some ex, some bs =>
+      match runDecS d rd ver ex bs with
+      | some (cls, alloc) => (st, judgeS cls alloc impl)
+      | none => (st, .unknown)
+    | _, _, _, _ => (st, .unknown)
+  | ["memsize", t] =>
+    match memSize t with
+    | some n => (st, cmpModel (toString n) impl)
+    | none => (st, .unknown)
   | ["hex", s] =>
     match parseHex s with
     | some bs => (st, judge (showHexRes (utilFromHex bs)) (utilFromHexAlloc bs) bs.length impl)
